@@ -1,4 +1,5 @@
 //! C13 Progress-bar geometry.
+use crate::ensure;
 use std::collections::BTreeMap;
 use std::sync::atomic::{AtomicU32, Ordering};
 use std::sync::Arc;
@@ -56,6 +57,10 @@ pub struct GeoCase {
     /// sequences by the caller (zero columns; the harness runs with template colours switched off)
     #[serde(default)]
     sgr_prefix: bool,
+    /// wide_bar with resized_from: the frame under test is the one that println() repaints below its log line
+    /// (the first thing drawn after the terminal changed its width)
+    #[serde(default)]
+    via_println: bool,
 }
 
 struct Parsed {
@@ -203,9 +208,14 @@ fn rig_in(chars: &str, template: &str, cols: u16, in_multi: bool, order: u8) -> 
     let vt = VTerm::raw(500, cols as usize);
     let vt2 = vt.clone();
     let pb = catch(move || {
-        let style = match order % 3 {
+        let style = match order % 4 {
+            // (the characters are set twice: first a set of the other column width, then the real one)
+            3 => {
+                let other = if unicode_width::UnicodeWidthStr::width(chars.as_str()) == chars.chars().count() { "\u{4e16}\u{754c}\u{ff0d}" } else { "#>-" };
+                ProgressStyle::with_template(&template).expect("template").progress_chars(other).progress_chars(&chars)
+            }
             0 => ProgressStyle::with_template(&template).expect("template").progress_chars(&chars),
-            _ => ProgressStyle::default_bar().progress_chars(&chars).template(if order % 3 == 1 { &template } else { "{pos}" }).expect("template"),
+            _ => ProgressStyle::default_bar().progress_chars(&chars).template(if order % 4 == 1 { &template } else { "{pos}" }).expect("template"),
         }
         .with_key("frac", frac_key(f2));
         let (pb, mp) = if in_multi {
@@ -215,7 +225,7 @@ fn rig_in(chars: &str, template: &str, cols: u16, in_multi: bool, order: u8) -> 
             (ProgressBar::with_draw_target(Some(1), ProgressDrawTarget::term_like(vt2.boxed())), None)
         };
         pb.set_style(style);
-        if order % 3 == 2 {
+        if order % 4 == 2 {
             pb.set_style(pb.style().template(&template).expect("template"));
         }
         (pb, mp)
@@ -332,7 +342,20 @@ fn run_geo(c: &GeoCase) -> CaseResult {
             }
             let tw = c.retab.map_or(8, |(_, w2)| w2 as usize % 13);
             let (left, right) = (&format!("{}{}", if c.sgr_prefix { "\u{1b}[31mjob\u{1b}[0m " } else { "" }, crate::model::expand_tabs(left, tw)), &crate::model::expand_tabs(right, tw));
-            let (line, frac) = r.draw_end(c.len, c.pos, c.end).map_err(|p| Fail::new("panic", format!("drawing {template:?} on {term} columns: {p}")))?;
+            let via_println = c.via_println && c.resized_from.is_some() && c.end.is_none() && !c.in_multi;
+            let (line, frac) = if via_println {
+                // the state is set while the terminal still reports the old width, then it is resized
+                r.vt.lock().report_cols = Some(c.resized_from.unwrap().max(1));
+                let _ = r.draw(c.len, c.pos);
+                r.vt.lock().report_cols = Some(*term);
+                catch(|| r.pb.println("log")).map_err(|p| Fail::new("panic", format!("println on {term} columns: {p}")))?;
+                let lines = r.vt.last_frame_lines().map_err(|e| Fail::new("harness", e))?;
+                ensure!(lines.len() == r.nlines + 1 && lines[0] == "log", "shape", "println repainted {lines:?}, expected the log line and {} template line(s)", r.nlines);
+                v.label("first_frame_after_a_resize_painted_by_println");
+                (lines[1 + r.bar_line].clone(), f32::from_bits(r.frac.load(Ordering::SeqCst)))
+            } else {
+                r.draw_end(c.len, c.pos, c.end).map_err(|p| Fail::new("panic", format!("drawing {template:?} on {term} columns: {p}")))?
+            };
             let rest = console::measure_text_width(left) + console::measure_text_width(right);
             let bar = line
                 .strip_prefix(left.as_str())
@@ -353,7 +376,8 @@ fn run_geo(c: &GeoCase) -> CaseResult {
             v.label_if(cwidth == 2 && avail % 2 == 1, "odd_remainder");
         }
     }
-    v.label_if(c.order % 3 != 0, "template_set_after_progress_chars");
+    v.label_if(matches!(c.order % 4, 1 | 2), "template_set_after_progress_chars");
+    v.label_if(c.order % 4 == 3, "progress_chars_set_twice_with_different_widths");
     v.label_if(chars.iter().any(|c| c.chars().count() > 1), "progress_characters_of_several_code_points");
     v.label_if(c.end.is_some() && c.len.map_or(false, |l| c.pos > 0 && c.pos < l), "finished_bar_short_of_its_length");
     Ok(v)
@@ -437,8 +461,8 @@ fn geo_strategy() -> BoxedStrategy<GeoCase> {
         (prop_oneof![3 => 1u16..60, 1 => 60u16..300], "[a-z\\[ \u{e9}\u{4e16}\t]{0,8}", "[a-z\\] \u{e9}\u{4e16}\t]{0,8}"),
     );
     let extra = (proptest::option::weighted(0.3, "[a-z:. \u{e9}\u{4e16}]{0,12}"), proptest::option::weighted(0.3, "[a-z:. \u{e9}\u{4e16}]{0,12}"));
-    (chars_strategy(), width, len_pos_strategy(), wide, extra, any::<bool>(), proptest::option::weighted(0.3, 1u16..300), prop_oneof![3 => Just(0u8), 1 => Just(1u8), 1 => Just(2u8)], proptest::option::weighted(0.25, 0u8..3), proptest::option::weighted(0.3, (0u8..13, 0u8..13)))
-        .prop_map(|(chars, width, (len, pos), wide, extra, in_multi, resized_from, order, end, retab)| GeoCase { default_width: wide.is_none() && width % 7 == 0, msg_line_above: width % 5 == 1, sgr_prefix: width % 4 == 2, chars, width, len, pos, wide, extra, in_multi, resized_from, order, end, retab })
+    (chars_strategy(), width, len_pos_strategy(), wide, extra, any::<bool>(), proptest::option::weighted(0.3, 1u16..300), prop_oneof![3 => Just(0u8), 1 => Just(1u8), 1 => Just(2u8), 1 => Just(3u8)], proptest::option::weighted(0.25, 0u8..3), proptest::option::weighted(0.3, (0u8..13, 0u8..13)))
+        .prop_map(|(chars, width, (len, pos), wide, extra, in_multi, resized_from, order, end, retab)| GeoCase { default_width: wide.is_none() && width % 7 == 0, msg_line_above: width % 5 == 1, sgr_prefix: width % 4 == 2, via_println: width % 3 == 0, chars, width, len, pos, wide, extra, in_multi, resized_from, order, end, retab })
         .boxed()
 }
 
@@ -566,7 +590,7 @@ pub fn property() -> Property {
                 cases: |t| t.pick(60_000, 1_000_000),
                 run: run_geo,
                 signature: no_signature,
-                essential: &["partial_progress", "full", "double_width_cells", "huge_len", "two_chars", "wide_bar", "bar_without_a_width", "blank_background_glyph", "wide_bar_in_multi_line_template", "wide_bar_inside_multi_progress", "terminal_resized_between_frames", "rest_does_not_fit", "odd_remainder", "template_set_after_progress_chars", "finished_bar_short_of_its_length", "tab_width_changed_between_two_frames_of_a_line_with_a_tab", "wide_msg_line_above_the_wide_bar_line", "caller_coloured_text_on_the_wide_bar_line"],
+                essential: &["partial_progress", "full", "double_width_cells", "huge_len", "two_chars", "wide_bar", "bar_without_a_width", "blank_background_glyph", "wide_bar_in_multi_line_template", "wide_bar_inside_multi_progress", "terminal_resized_between_frames", "rest_does_not_fit", "odd_remainder", "template_set_after_progress_chars", "finished_bar_short_of_its_length", "tab_width_changed_between_two_frames_of_a_line_with_a_tab", "wide_msg_line_above_the_wide_bar_line", "caller_coloured_text_on_the_wide_bar_line", "progress_chars_set_twice_with_different_widths", "first_frame_after_a_resize_painted_by_println"],
                 workers: w,
                 decode: None,
             }));
